@@ -103,10 +103,18 @@ func (dmx *Demuxer) NextPacket() (p *Packet, err error) {
 
 	// Create packet buffer if not exists
 	if dmx.packetBuffer == nil {
-		if dmx.packetBuffer, err = newPacketBuffer(dmx.r, dmx.optPacketSize, dmx.optPacketSkipper); err != nil {
+		// Only keep a packet buffer whose packet size is known
+		var pb *packetBuffer
+		if pb, err = newPacketBuffer(dmx.r, dmx.optPacketSize, dmx.optPacketSkipper); err != nil {
+			// No more bytes to auto detect the packet size from: the stream is over
+			if errors.Is(err, io.EOF) {
+				err = ErrNoMorePackets
+				return
+			}
 			err = fmt.Errorf("astits: creating packet buffer failed: %w", err)
 			return
 		}
+		dmx.packetBuffer = pb
 	}
 
 	// Fetch next packet from buffer
